@@ -39,7 +39,7 @@ class HObj:
 # An in-place operator naming signal T therefore may change exactly the objects of T's alias
 # group; a change that reaches another group through shared memory was not sanctioned.
 ALIAS_OK = {"tslice", "fslice", "like", "fast_len", "snippet", "polconv", "container",
-            "compute_sync", "ctor", "time_shift", "observe"}
+            "compute_sync", "ctor", "ctor_raw", "time_shift", "observe"}
 
 
 def split_snap(o):
@@ -270,6 +270,42 @@ class Ctor(COp):
 
 
 @cregister
+class CtorRaw(COp):
+    """Construct a signal directly from a caller-owned raw buffer (native or byte-swapped,
+    C / Fortran / strided) and a caller-owned Time of some format and precision."""
+    name = "ctor_raw"
+
+    def gen(self, tape, info):
+        return {"swap": tape.chance(1, 3, "craw.swap"),
+                "layout": ["C", "F", "strided"][tape.draw(3, "craw.layout")],
+                "time": ["keep", "isot3", "mjd", "unix", "isot9", "none"][tape.draw(6, "craw.time")],
+                "seed": tape.draw(256, "craw.seed")}
+
+    def prepare(self, pb, z, desc):
+        import inspect
+        from astropy.time import Time
+        vals = gen.make_values(tuple(z.shape), str(z.dtype), desc["seed"])
+        raw, owner = gen.lay_out(vals, desc["layout"])
+        if desc["swap"]:
+            sw = raw.dtype.newbyteorder()
+            owner = owner.astype(sw)
+            raw = owner if desc["layout"] != "strided" else owner[1::2]
+        kw = {}
+        for k, v in inspect.signature(type(z)).parameters.items():
+            if v.kind is not v.POSITIONAL_ONLY and hasattr(z, k) and k != "start_time":
+                kw[k] = getattr(z, k)
+        t = {"keep": z.start_time, "none": None,
+             "isot3": Time("2021-03-04T05:06:07.123", format="isot", scale="utc", precision=3),
+             "mjd": Time(59277.25, format="mjd", scale="utc"),
+             "unix": Time(1.6e9, format="unix"),
+             "isot9": Time("2021-03-04T05:06:07", format="isot", precision=9)}[desc["time"]]
+        return {"raw": raw, "owner": owner, "t": t, "kw": kw}
+
+    def call(self, pb, z, args, desc):
+        return type(z)(args["raw"], start_time=args["t"], **args["kw"])
+
+
+@cregister
 class InPlace(COp):
     """Explicitly sanctioned mutation: in-place operator / out= naming z."""
     name = "inplace"
@@ -343,7 +379,7 @@ def all_ops():
     return d
 
 
-C_WEIGHTS = {"compute_sim": 2, "observe": 2, "contains": 2, "inplace": 4, "istft": 3, "stft": 2,
+C_WEIGHTS = {"ctor_raw": 2, "compute_sim": 2, "observe": 2, "contains": 2, "inplace": 4, "istft": 3, "stft": 2,
              "time_shift": 3, "freq_shift": 3, "snippet": 2, "coherent_dd": 3,
              "incoherent_dd": 2, "concat": 3, "polconv": 3, "binary": 3, "ctor": 2}
 
@@ -672,8 +708,13 @@ def _run(ctx):
         # ---- result joins the heap ----
         if outcome == "ok" and isinstance(val, pb.Signal) and val is not z:
             origin = f"result of step {s} {opname}({target.name})"
-            h = heap.add(val, "signal", origin,
-                         group=target.group if opname in ALIAS_OK else None)
+            grp = target.group if opname in ALIAS_OK else None
+            if opname == "ctor_raw":        # the new signal may wrap the raw buffer it was given
+                grp = next((a.group for a in arg_h if a.obj is args.get("raw")), None)
+                for a in arg_h:
+                    if a.obj is args.get("owner"):
+                        a.group = grp
+            h = heap.add(val, "signal", origin, group=grp)
             ctx.log("result", h.name, type(val).__name__, val.shape, str(val.dtype),
                     core.hbytes(repr(snapshot.strip_ids(heap.base[h.name])).encode()))
             if isinstance(val.data, np.ndarray) and isinstance(z.data, np.ndarray) \
